@@ -8,6 +8,7 @@
 #include "core.hpp"
 #include "session.hpp"
 #include "xzutil.hpp"
+#include "../model/refxz.hpp"
 
 #include <algorithm>
 #include <dirent.h>
@@ -395,7 +396,9 @@ static std::vector<SweepArt> &sweep_arts()
 // the CRC32 that covers it is recomputed, the way a file assembled from
 // pieces of two files (or a buggy writer) would look. A decoder that relies
 // on the CRC32 alone would accept them.
-struct Rewrite { std::string what; Bytes file; };
+// by_reference: the rewrite may produce a file that is still valid (e.g. a
+// larger declared dictionary); the independent reference parser decides.
+struct Rewrite { std::string what; Bytes file; bool by_reference = false; };
 
 static void le32(uint8_t *p, uint32_t v) { for (int i = 0; i < 4; ++i) p[i] = (uint8_t)(v >> (8 * i)); }
 
@@ -403,6 +406,24 @@ static void make_rewrites(const SweepArt &a, std::vector<Rewrite> &out)
 {
 	if (a.fmt != 0) return;
 	size_t block_no = 0;
+	// every single bit of every field that a CRC32 protects, flipped with that
+	// CRC32 recomputed: Stream Flags in header and footer, Backward Size, the
+	// whole Block Header, the whole Index
+	for (size_t fi = 0; fi < a.info.fields.size(); ++fi) {
+		const auto &f = a.info.fields[fi];
+		size_t lo = 0, hi = 0, crc_at = 0, crc_from = 0, crc_len = 0;
+		if (f.field == "stream_header") { lo = f.off + 6; hi = f.off + 8; crc_at = f.off + 8; crc_from = f.off + 6; crc_len = 2; }
+		else if (f.field == "stream_footer") { lo = f.off + 4; hi = f.off + 10; crc_at = f.off; crc_from = f.off + 4; crc_len = 6; }
+		else if (f.field == "block_header" || f.field == "index") { lo = f.off; hi = f.off + f.len - 4; crc_at = f.off + f.len - 4; crc_from = f.off; crc_len = f.len - 4; }
+		else continue;
+		for (size_t pos = lo; pos < hi; ++pos) for (int bit = 0; bit < 8; ++bit) {
+			Bytes b = a.file;
+			b[pos] ^= (uint8_t)(1u << bit);
+			le32(&b[crc_at], lzma_crc32(&b[crc_from], crc_len, 0));
+			Rewrite rw; rw.what = fmt("%s byte %zu bit %d flipped (CRC32 fixed)", f.field.c_str(), pos - f.off, bit); rw.file.swap(b); rw.by_reference = true;
+			out.push_back(rw);
+		}
+	}
 	for (size_t fi = 0; fi < a.info.fields.size(); ++fi) {
 		const auto &f = a.info.fields[fi];
 		if (f.field == "stream_header") {
@@ -610,6 +631,13 @@ static void c05_exec(const Plan &plan, Verdict &v)
 			v.count("field." + f);
 		}
 		if (rewrite) nonpayload = in_scope;
+		bool ref_valid = false;
+		Bytes ref_out;
+		if (rewrite && rewrites_of(art_index)[(size_t)(j - a->file.size() * 9)].by_reference) {
+			ref::XzResult want = ref::parse_xz(damaged.data(), damaged.size(), concat);
+			if (want.verdict == ref::XZ_VALID) { ref_valid = true; ref_out.swap(want.out); nonpayload = false; v.count("reach.consistent_rewrite_still_valid"); }
+			else v.count(want.verdict == ref::XZ_UNSUPPORTED ? "reach.consistent_rewrite_unsupported" : "reach.consistent_rewrite_invalid");
+		}
 		if (trunc) {
 			// a proper prefix that does not end at a Stream boundary (or inside
 			// padding, whose 4-byte granularity the decoder checks) ends inside a stream
@@ -650,6 +678,12 @@ static void c05_exec(const Plan &plan, Verdict &v)
 			expect_plain = clean.out;
 		}
 		std::vector<size_t> lz_plain = { 100, 180 };
+		if (ref_valid) {
+			// the rewritten file is a valid file in its own right (the reference parser accepts it)
+			if (!o.error.empty()) { v.fail(o.cls, "C05/" + o.cls, o.error + ctx); return; }
+			if (o.status == LZMA_STREAM_END && o.out != ref_out) { v.fail("silent-corruption", "C05/silent-corruption", fmt("a rewritten but valid file decoded to %zu bytes that differ from the specification's decoding (%zu bytes)", o.out.size(), ref_out.size()) + ctx); return; }
+			if (o.status != LZMA_STREAM_END) { v.fail("valid-rewrite-rejected", "C05/valid-rewrite-rejected", fmt("a rewritten file that is valid per the format specification was rejected with %s", ret_name(o.status)) + ctx); return; }
+		} else
 		judge_c05(v, a->file, damaged, expect_plain, a->has_check, o, nonpayload, trunc_inside, ctx, a->fmt == 2 ? &a->stream_ends : nullptr, a->fmt == 2 ? &lz_plain : nullptr);
 		v.feature(mix64(mix64(fnv_str(a->name), (uint64_t)sp.kind), mix64(trunc + 2 * rewrite, rewrite ? j : pos * 8 + (trunc ? 0 : j % 8))));
 		v.feature2(mix64(mix64(fnv_str(a->fmt == 0 && pos < a->file.size() ? field_at(a->info, pos) : "-"), (uint64_t)trunc), (uint64_t)sp.kind));
